@@ -12,7 +12,8 @@ CONSTANTS
   SuffixChecked = %s
   RootRegexChecked = %s
   OptionsSelectedOnly = %s
-INVARIANTS Check
+  OptionsViaRouter = %s
+INVARIANTS Check OptionsInv
 CHECK_DEADLOCK FALSE
 """
 
@@ -262,19 +263,30 @@ def check(run, replay=None):
 
         def run_mode(mm):
             mode, mtier = mm
-            return mm, tlc(run, "MC_Routing", MC_CFG % (mode, mtier, "TRUE", "TRUE", "TRUE"), workers=per, heap="6g",
+            return mm, tlc(run, "MC_Routing", MC_CFG % (mode, mtier, "TRUE", "TRUE", "TRUE", "TRUE"), workers=per, heap="6g",
                            tag="MC_Routing-%s-%s" % (mode, mtier), timeout=7200)
+
+        # vacuity control: counter-models (earlier implementations of computeAllowedMethods) TLC must refute
+        counters = []
+        if run.prop == "C17":
+            counters.append(("agree", "FALSE", "MC_Routing-agree-legacy-options", "computeAllowedMethods walks all WebServices (legacy)"))
+        if run.prop in ("C14", "C17"):
+            counters.append(("path", "TRUE", "MC_Routing-path-regex-walk", "computeAllowedMethods matches with the templates' regular expressions"))
+
+        def run_counter(cm):
+            mode, selected_only, tag, what = cm
+            return cm, tlc(run, "MC_Routing", MC_CFG % (mode, "quick", "TRUE", "TRUE", selected_only, "FALSE"), workers=per, heap="6g",
+                           tag=tag, expect_violation=True)
 
         # the pools are independent models: explored side by side
         with cf.ThreadPoolExecutor(max_workers=3) as ex:
+            fut_c = [ex.submit(run_counter, cm) for cm in counters]
             results = list(ex.map(run_mode, modes))
-        if run.prop == "C17":
-            # vacuity control: the legacy walk over ALL WebServices must be refuted at model level
-            r = tlc(run, "MC_Routing", MC_CFG % ("agree", "quick", "TRUE", "TRUE", "FALSE"), workers=NCPU, heap="6g",
-                    tag="MC_Routing-agree-legacy-options", expect_violation=True)
-            if not r.violated:
-                raise Infra("vacuity: the legacy computeAllowedMethods (all WebServices) was NOT refuted by OptionsTruthful")
-            mc_exhaustive.append({"counter_model": "computeAllowedMethods walks all WebServices (legacy)", "refuted_by": r.violated})
+            for f in fut_c:
+                (mode, selected_only, tag, what), r = f.result()
+                if r.violated != "OptionsInv":
+                    raise Infra("vacuity: the counter-model '%s' was NOT refuted by OptionsInv (%s)" % (what, r.violated))
+                mc_exhaustive.append({"counter_model": what, "refuted_by": r.violated})
         for (mode, mtier), r in results:
             if r.violated:
                 raise Infra("design check failed: MC_Routing (%s/%s) violates %s - the specification itself is "
